@@ -1,0 +1,7 @@
+//go:build verif
+// +build verif
+
+package bfe_bufio
+
+// VerifRW exposes the Reader's buffer indices to the C22 correspondence harness (/verif).
+func (b *Reader) VerifRW() (r, w int) { return b.r, b.w }
